@@ -33,7 +33,8 @@
     the tree or the name), and the recorded deviations are
     excluded by their trigger predicates of Backup/Triggers.v, evaluated on a
     configuration whose base is the plain OS filesystem ([plain_cfg]):
-      D20  the name is relative                 ([is_abs (clean n) = true])
+      D20  the name is relative                 ([is_abs (clean n) = true]; lifted
+                                                 below, see RELATIVE NAMES)
       D17  a link target runs through a link    ([resolve_through_link .. = false])
       K2   a stored link target is not clean    ([unclean_target w = false],
                                                  i.e. [TrUncleanLinkTarget] not in [link_flags cfg w])
@@ -73,13 +74,57 @@
     OS filesystem ([C16_K3_not_needed], [C16_K4_not_needed]): they concern the
     operation performed afterwards / the prefixed layerings.
 
-    FINDING ([C16_finding_ELOOP], not covered by a trigger): a name whose
+    FINDING ([C16_finding_ELOOP], recorded as K8, trigger TrHopLimit of Backup/Triggers.v): a name whose
     resolution follows more than 40 symlinks gets ELOOP from the kernel, while
     resolvePathWithInfo resolves it link by link and BackupFS operates on the
     existing target.  This is why [C16_same_entry] carries [definite].
 
-    NOT PROVED (stated as [_stmt] definitions at the end): the relative-name
-    versions (D20 is excluded throughout), where results may be relative. *)
+    RELATIVE NAMES (the exclusion of D20 lifted; section "Relative names" at
+    the end).  In the model, as in the harness that runs the Go code, the
+    working directory is the root: [resolve] walks a relative string from the
+    key [[]], and ".." at the root stays at the root.  For a relative name
+    [real_path] visits relative candidates and returns a possibly relative
+    string: a relative link target is joined to the relative directory of the
+    link, a target that climbs above the working directory (K3) leaves leading
+    ".." in the result ("l/x" with l -> ../d gives "../d/x"), and an absolute
+    target makes all later candidates, and the result, absolute.  The loop
+    invariant of Proofs/ResolveFacts.v is generalised to these two modes
+    ([rk], [rloop_inv_g]).  "Read from the root" below means [clean (sep :: rp)],
+    the absolute cleaned path of the same key; [comps (sep :: n)] are the
+    components of the name read from the root.
+    PROVED for every name [n] - absolute or relative, including names whose
+    cleaned form starts with ".." (no side condition is needed: the leading
+    ".." candidates are the root directory and are passed over):
+    - [C16_relative_no_fuel_exhaustion]: [C16_no_fuel_exhaustion] without the
+      absoluteness hypothesis, with the same bound 40*T + 2 <= 4096.
+    PROVED under [c16_rel_hyps] = [c16_hyps] without D20 (tree [wf], D17 and
+    K2 excluded by the same trigger predicates, evaluated on the candidates of
+    the name as given):
+    - [C16_relative_succeeds]: resolution returns a path.
+    - [C16_relative_same_entry] (hypotheses spelled out; this is the former
+      [C16_relative_same_entry_stmt], verbatim), [C16_relative_same_entry_bounded]:
+      the result and the caller's cleaned name give the same answer under the
+      kernel walk, final component not followed, when that answer is [definite].
+    - [C16_relative_no_symlink_parent]: the result is cleaned and, read from
+      the root, no proper ancestor of it is a symlink.
+    - [C16_relative_final_unresolved], [C16_relative_missing_tail],
+      [C16_relative_shape]: as for absolute names, for the result read from the
+      root and the components of the name read from the root.
+    - [C16_relative_fixpoint], [C16_relative_idempotent]: a cleaned name that,
+      read from the root, has no symlink among its ancestors resolves to itself;
+      results resolve to themselves.
+    - [C16_relative_hyps_decidable], [C16_relative_hyps_of_triggers] (the
+      hypotheses hold when no trigger other than [TrRelativeName] fires).
+    - [C16_relative_satisfiable] (climbing relative targets, relative result
+      with leading ".."), [C16_relative_abs_link] (leading ".." in the name,
+      absolute link on the way, absolute result), [C16_D20_covered] (the tree
+      of [C16_D20_necessary]: its relative result names the caller's entry).
+    What remains of D20 is exactly what [C16_D20_necessary] shows: the result
+    of a relative name may be relative, so it is not [nolinkpar] as a string
+    (not absolute), and BackupFS tracks "e" and "/e" under different keys.
+    No deviation of the model from the kernel walk beyond D17 / K2 / the
+    40-hop limit was found for relative names: the theorems above hold for
+    all of them.  Nothing is left as a [_stmt] definition. *)
 From stdpp Require Import gmap.
 From BFS Require Import Backup.Triggers Fs.FsSpec.
 From BFS Require Import Proofs.FsFacts Proofs.ResolveFacts.
@@ -258,21 +303,129 @@ Theorem C16_K4_not_needed :
 Proof. exact k4_not_needed. Qed.
 Print Assumptions C16_K4_not_needed.
 
-(** * Not proved: relative names (D20).  The model's working directory is the
-    root; results of relative names may be relative.  Statements (not
-    theorems): the same-entry property and the fuel bound without [is_abs]. *)
+(** * Relative names: D20 lifted.  The model's working directory is the
+    root; results of relative names may be relative.  Every statement below
+    holds for every name, absolute or relative. *)
 
-Definition C16_relative_same_entry_stmt : Prop :=
-  forall q n w rp,
-    wf (st_fs (w_st w)) ->
-    resolve_through_link (plain_cfg q) (cands (clean n)) (fun x => x) w = false ->
-    unclean_target w = false ->
-    fst (real_path osfs n w) = MOk rp ->
-    definite (resolve (st_fs (w_st w)) (clean n) false) ->
-    resolve (st_fs (w_st w)) rp false = resolve (st_fs (w_st w)) (clean n) false.
+Theorem C16_relative_no_fuel_exhaustion : forall n w T,
+  wf (st_fs (w_st w)) -> links_bounded (st_fs (w_st w)) T ->
+  40 * T + 2 <= walk_fuel ->
+  fst (real_path osfs n w) <> MErr EFUEL.
+Proof. exact real_path_any_no_efuel. Qed.
+Print Assumptions C16_relative_no_fuel_exhaustion.
 
-Definition C16_relative_no_fuel_exhaustion_stmt : Prop :=
-  forall n w T,
-    wf (st_fs (w_st w)) -> links_bounded (st_fs (w_st w)) T ->
-    40 * T + 2 <= walk_fuel ->
-    fst (real_path osfs n w) <> MErr EFUEL.
+Theorem C16_relative_same_entry : forall q n w rp,
+  wf (st_fs (w_st w)) ->
+  resolve_through_link (plain_cfg q) (cands (clean n)) (fun x => x) w = false ->
+  unclean_target w = false ->
+  fst (real_path osfs n w) = MOk rp ->
+  definite (resolve (st_fs (w_st w)) (clean n) false) ->
+  resolve (st_fs (w_st w)) rp false = resolve (st_fs (w_st w)) (clean n) false.
+Proof. exact real_path_relative_same_entry. Qed.
+Print Assumptions C16_relative_same_entry.
+
+Theorem C16_relative_succeeds : forall q n w,
+  c16_rel_hyps q n w -> exists rp, real_path osfs n w = (MOk rp, w).
+Proof. exact real_path_any_succeeds. Qed.
+Print Assumptions C16_relative_succeeds.
+
+Theorem C16_relative_same_entry_bounded : forall q n w,
+  c16_rel_hyps q n w -> forall rp, fst (real_path osfs n w) = MOk rp ->
+  forall T, links_bounded (st_fs (w_st w)) T -> 40 * T + 2 <= walk_fuel ->
+  resolve (st_fs (w_st w)) (clean n) false <> WErr ELOOP ->
+  resolve (st_fs (w_st w)) rp false = resolve (st_fs (w_st w)) (clean n) false.
+Proof. exact real_path_any_same_entry_bounded. Qed.
+Print Assumptions C16_relative_same_entry_bounded.
+
+(** the result is cleaned; read from the root it is absolute, cleaned and no
+    proper ancestor of it is a symlink *)
+Theorem C16_relative_no_symlink_parent : forall q n w,
+  c16_rel_hyps q n w -> forall rp, fst (real_path osfs n w) = MOk rp ->
+  cleaned rp /\ nolinkpar (st_fs (w_st w)) (clean (sep :: rp)).
+Proof. exact real_path_any_nolinkpar. Qed.
+Print Assumptions C16_relative_no_symlink_parent.
+
+Theorem C16_relative_final_unresolved : forall q n w,
+  c16_rel_hyps q n w -> forall rp, fst (real_path osfs n w) = MOk rp ->
+  forall dcs b kd m,
+    comps (sep :: n) = dcs ++ [b] ->
+    resolve (st_fs (w_st w)) (kpath dcs) true = WFound kd (Dir m) ->
+    clean (sep :: rp) = kpath (kd ++ [b]).
+Proof. exact real_path_any_final_unresolved. Qed.
+Print Assumptions C16_relative_final_unresolved.
+
+Theorem C16_relative_missing_tail : forall q n w,
+  c16_rel_hyps q n w -> forall rp, fst (real_path osfs n w) = MOk rp ->
+  forall done c tail kd m,
+    comps (sep :: n) = done ++ c :: tail ->
+    resolve (st_fs (w_st w)) (kpath done) true = WFound kd (Dir m) ->
+    st_fs (w_st w) !! (kd ++ [c]) = None ->
+    clean (sep :: rp) = kpath (kd ++ c :: tail).
+Proof. exact real_path_any_missing_tail. Qed.
+Print Assumptions C16_relative_missing_tail.
+
+Theorem C16_relative_shape : forall q n w,
+  c16_rel_hyps q n w -> forall rp, fst (real_path osfs n w) = MOk rp ->
+  comps (sep :: n) <> [] ->
+  exists done tail k',
+    comps (sep :: n) = done ++ tail /\ tail <> [] /\ clean (sep :: rp) = kpath (k' ++ tail) /\
+    NL (st_fs (w_st w)) k' /\
+    (length tail = 1 \/ st_fs (w_st w) !! (k' ++ firstn 1 tail) = None) /\
+    (forall X fl r, (X <> [] \/ fl = true) ->
+       walks (st_fs (w_st w)) [] (done ++ X) fl r -> walks (st_fs (w_st w)) [] (k' ++ X) fl r).
+Proof. exact real_path_any_lexical_tail. Qed.
+Print Assumptions C16_relative_shape.
+
+Theorem C16_relative_fixpoint : forall p w,
+  wf (st_fs (w_st w)) -> cleaned p -> nolinkpar (st_fs (w_st w)) (clean (sep :: p)) ->
+  real_path osfs p w = (MOk p, w).
+Proof. exact real_path_any_fixpoint. Qed.
+Print Assumptions C16_relative_fixpoint.
+
+Theorem C16_relative_idempotent : forall q n w rp,
+  c16_rel_hyps q n w -> fst (real_path osfs n w) = MOk rp ->
+  real_path osfs rp w = (MOk rp, w).
+Proof. exact real_path_any_idempotent. Qed.
+Print Assumptions C16_relative_idempotent.
+
+Theorem C16_relative_hyps_decidable : forall q n w,
+  c16_rel_hypsb q n w = true -> c16_rel_hyps q n w.
+Proof. exact c16_rel_hypsb_ok. Qed.
+Print Assumptions C16_relative_hyps_decidable.
+
+Theorem C16_relative_hyps_of_abs : forall q n w, c16_hyps q n w -> c16_rel_hyps q n w.
+Proof. exact c16_rel_hyps_of_abs. Qed.
+Print Assumptions C16_relative_hyps_of_abs.
+
+Theorem C16_relative_hyps_of_triggers : forall q n w,
+  wf (st_fs (w_st w)) ->
+  (forall t, In t (triggers (plain_cfg q) (ORealPath n) w) -> t = TrRelativeName) ->
+  c16_rel_hyps q n w.
+Proof. exact c16_rel_hyps_of_triggers. Qed.
+Print Assumptions C16_relative_hyps_of_triggers.
+
+(** { /d/, /d/x, /l -> ../d, /d/m -> ../../../d }, name "l/m/x" resolves to "../../../d/x" *)
+Theorem C16_relative_satisfiable :
+  c16_rel_hypsb xq n_rel w_rel = true /\ is_abs (clean n_rel) = false /\
+  fst (real_path osfs n_rel w_rel) = MOk rp_rel /\
+  (cleaned rp_rel /\ nolinkpar (st_fs (w_st w_rel)) (clean (sep :: rp_rel))) /\
+  resolve (st_fs (w_st w_rel)) rp_rel false = resolve (st_fs (w_st w_rel)) (clean n_rel) false.
+Proof. exact rel_sat. Qed.
+Print Assumptions C16_relative_satisfiable.
+
+(** the tree of [C16_satisfiable], name "../a/r/f" resolves to "/d/e/f" *)
+Theorem C16_relative_abs_link :
+  c16_rel_hypsb xq n_rel2 w_sat = true /\ is_abs (clean n_rel2) = false /\
+  fst (real_path osfs n_rel2 w_sat) = MOk rp_sat /\
+  resolve (st_fs (w_st w_sat)) rp_sat false = resolve (st_fs (w_st w_sat)) (clean n_rel2) false.
+Proof. exact rel_sat_abs_link. Qed.
+Print Assumptions C16_relative_abs_link.
+
+(** the tree of [C16_D20_necessary], name "r/y": the relative result "d/y" names the caller's entry *)
+Theorem C16_D20_covered :
+  c16_rel_hypsb xq n_d20 w_d20 = true /\
+  fst (real_path osfs n_d20 w_d20) = MOk rp_d20 /\
+  nolinkpar (st_fs (w_st w_d20)) (clean (sep :: rp_d20)) /\
+  resolve (st_fs (w_st w_d20)) rp_d20 false = resolve (st_fs (w_st w_d20)) (clean n_d20) false.
+Proof. exact d20_covered. Qed.
+Print Assumptions C16_D20_covered.
